@@ -6,10 +6,20 @@
    Hamming 24/18 protected.  Address 40..63 = row address group, 0..39 = column address group:
 
      set active position (mode 4) / full row colour (mode 1)   select the row 1..24 (address 40 = row 24)
-     G0 character without diacritical mark (mode 16), G2 character (mode 15), data >= 32
-                                                               put a character at (selected row, address)
      termination marker (row address group, mode 31)           ends the enhancement data
-     anything else (e.g. mode 9, a Level 2.5 G0 character; reserved modes) shows nothing at Level 1.5
+     column address group, EN 300 706 table 29 (12.3.1), data >= 32 where a character is coded:
+       modes that SUPPLY A CHARACTER for the addressed position (CharModes)
+         1  G1 block mosaic (Level 2.5)          2  G3 line drawing / smoothed mosaic (Level 1.5)
+         9  G0 character (Level 2.5)            11  G3 line drawing / smoothed mosaic (Level 2.5)
+        13  DRCS character invocation (2.5)     15  G2 character (Level 1.5)
+        16  G0 character without diacritical mark (Level 1.5)
+        17..31  G0 character with diacritical mark 1..15 (Level 1.5)
+       modes that only change HOW the position is displayed, or carry other data (no character):
+         0  foreground colour    3  background colour     6  PDC data          7  additional flash functions
+         8  modified G0 and G2 character set designation  12  display attributes   14  font style
+         4, 5, 10  reserved
+     Of the character modes a Level 1.5 decoder displays 2, 15 and 16..31 (IsChar); the others show
+     nothing at Level 1.5 but the position still belongs to the enhancement data (Overridden).
 
    Reference semantics: a character lands at (addressed row, column).  Rows and, within a row, columns
    are transmitted in ascending order (WellFormed).
@@ -18,7 +28,14 @@
    triplet is lost and the decoder cannot know what it was - it may have been a row address - so this
    triplet AND ALL THAT FOLLOW are dropped (packet.c: "out-of-order/missing triplets are dropped, not
    misplaced").  Loss = "rest" is this rule; Loss = "triplet" (drop only the damaged triplet, keep
-   interpreting) is the wrong rule, kept to show that NotMisplaced tells them apart. *)
+   interpreting) is the wrong rule, kept to show that NotMisplaced tells them apart.
+
+   Overridden(ts) is the exception clause of C03 ("positions overridden by X/26 enhancement data
+   excepted"): the level 1 byte transmitted for a position whose character comes from a triplet is
+   only a fall-back (EN 300 706 table 25 notes that some encoders send it with even parity), so a
+   parity error THERE may be forgiven; at a position a triplet merely addresses to change colour,
+   flash, character set, attributes or font style the level 1 byte IS the character shown, and a parity
+   error there is a parity error. *)
 EXTENDS Naturals, Sequences, FiniteSets
 
 RowT(r)        == [a |-> IF r = 24 THEN 40 ELSE 40 + r, m |-> 4, d |-> 0]     \* set active position
@@ -29,13 +46,31 @@ TermT          == [a |-> 63, m |-> 31, d |-> 127]
 IsTerm(t)  == t.a >= 40 /\ t.m = 31
 SetsRow(t) == t.a >= 40 /\ t.m \in {1, 4}
 RowOf(t)   == IF t.a = 40 THEN 24 ELSE t.a - 40
-IsChar(t)  == t.a < 40 /\ t.m \in {15, 16} /\ t.d >= 32
+\* column address group, by mode (EN 300 706 table 29)
+CharModes == {1, 2, 9, 11, 13, 15} \cup (16..31)      \* supply the character of their position (at some presentation level)
+AttrModes == {0, 3, 7, 8, 12, 14}                      \* colours, flash, character set designation, display attributes, font style
+OtherModes == {4, 5, 6, 10}                            \* reserved, PDC
+ASSUME ModesPartition == /\ CharModes \cup AttrModes \cup OtherModes = 0..31
+                         /\ CharModes \cap AttrModes = {} /\ CharModes \cap OtherModes = {} /\ AttrModes \cap OtherModes = {}
+Supplies(t) == t.a < 40 /\ t.m \in CharModes
+\* ... of which a Level 1.5 decoder displays:
+IsChar(t)  == t.a < 40 /\ t.m \in ({2, 15} \cup (16..31)) /\ t.d >= 32
 
 \* Latin G2 set (EN 300 706 table 36), the codes used by the models
 G2Latin(d) == CASE d = 35 -> 163 [] d = 39 -> 167 [] d = 48 -> 176 [] d = 49 -> 177 [] d = 61 -> 189 [] d = 63 -> 191 [] OTHER -> 0
 \* G0 without diacritical mark: the Latin G0 set without national options; letters and digits are
 \* themselves, 0x2A stands for the commercial at (12.3.4 note)
-Uni(t) == IF t.m = 16 THEN (IF t.d = 42 THEN 64 ELSE t.d) ELSE G2Latin(t.d)
+\* G0 character d with the diacritical mark k = 1..15 of G2 column 4 (grave, acute, circumflex, tilde, macron, breve, dot above,
+\* umlaut, dot below, ring, cedilla, underline, double acute, ogonek, caron): ISO 10646 precomposed, the combinations used by the models
+Composed(k, d) == CASE k = 1 /\ d = 97 -> 224 [] k = 2 /\ d = 101 -> 233 [] k = 3 /\ d = 111 -> 244 [] k = 4 /\ d = 110 -> 241
+                    [] k = 5 /\ d = 97 -> 257 [] k = 6 /\ d = 97 -> 259 [] k = 7 /\ d = 99 -> 267 [] k = 8 /\ d = 117 -> 252
+                    [] k = 10 /\ d = 97 -> 229 [] k = 11 /\ d = 99 -> 231 [] k = 13 /\ d = 111 -> 337 [] k = 14 /\ d = 97 -> 261
+                    [] k = 15 /\ d = 115 -> 353 [] OTHER -> 0
+\* G3 characters are U+EF20 + (d - 32) in libzvbi's documented private mapping (format.h)
+Uni(t) == IF t.m = 16 THEN (IF t.d = 42 THEN 64 ELSE t.d)
+          ELSE IF t.m = 15 THEN G2Latin(t.d)
+          ELSE IF t.m = 2 THEN 61184 + t.d
+          ELSE Composed(t.m - 16, t.d)
 
 \* where the characters of a triplet sequence land: set of <<row, column, unicode>>; row 0 = no row addressed yet
 RECURSIVE Run(_, _, _, _)
@@ -47,6 +82,27 @@ Run(ts, i, row, acc) ==
        ELSE IF IsChar(t) THEN Run(ts, i + 1, row, acc \cup {<<row, t.a, Uni(t)>>})
        ELSE Run(ts, i + 1, row, acc)
 Lands(ts) == Run(ts, 1, 0, {})
+
+\* the positions <<row, column>> whose character is supplied by the enhancement data (at any presentation level)
+RECURSIVE RunO(_, _, _, _)
+RunO(ts, i, row, acc) ==
+  IF i > Len(ts) THEN acc
+  ELSE LET t == ts[i] IN
+       IF IsTerm(t) THEN acc
+       ELSE IF SetsRow(t) THEN RunO(ts, i + 1, RowOf(t), acc)
+       ELSE IF Supplies(t) THEN RunO(ts, i + 1, row, acc \cup {<<row, t.a>>})
+       ELSE RunO(ts, i + 1, row, acc)
+Overridden(ts) == RunO(ts, 1, 0, {})
+\* the positions a column triplet addresses at all
+RECURSIVE RunA(_, _, _, _)
+RunA(ts, i, row, acc) ==
+  IF i > Len(ts) THEN acc
+  ELSE LET t == ts[i] IN
+       IF IsTerm(t) THEN acc
+       ELSE IF SetsRow(t) THEN RunA(ts, i + 1, RowOf(t), acc)
+       ELSE IF t.a < 40 THEN RunA(ts, i + 1, row, acc \cup {<<row, t.a>>})
+       ELSE RunA(ts, i + 1, row, acc)
+Addressed(ts) == RunA(ts, 1, 0, {})
 
 \* A character is COMPLETE once a later received triplet moves on: a character further right in the same row, a
 \* row address or the termination marker (until then further triplets may still address the same position).
